@@ -56,6 +56,7 @@ def configs(tier, seed):
         if n_free > 3:
             continue
         c["K"] = 2 if tier == "quick" else 3
+        c["symbolic_pick"] = tier == "thorough"
         out.append(c)
     # non-negative / fixed / bounded parameters: standard errors mapped back from log space
     nn = [c for c in c02.base_configs() if c["name"] == "single-relation-penalty"][0]
@@ -65,7 +66,7 @@ def configs(tier, seed):
     return out
 
 
-def symbolic_optimize(cfg, rec, K=2, after=None, raise_exception=False, verbose=False, max_paths=400, well_conditioned=False):
+def symbolic_optimize(cfg, rec, K=2, after=None, raise_exception=False, verbose=False, max_paths=400, well_conditioned=False, pick=None):
     """Real Optimizer.optimize + create_result on terms, with adversarial optimiser and SVD contract stubs."""
     from harness import pipeline as pl
     from glotaran.optimization.optimizer import Optimizer
@@ -80,7 +81,7 @@ def symbolic_optimize(cfg, rec, K=2, after=None, raise_exception=False, verbose=
             for s in stubs.values():
                 s.calls.clear()
                 s.cache.clear()
-            ls = optim.AdversarialLeastSquares(ctx, K=K)
+            ls = optim.AdversarialLeastSquares(ctx, K=K, pick=pick)
             svd = optim.SvdStub(ctx, well_conditioned=well_conditioned)
             with Patcher() as p2:
                 optim.install_optimizer_stubs(p2, ctx, src, ls, svd)
@@ -129,14 +130,17 @@ def run_config(cfg, rec):
                     "np.linalg.svd by its contract (sigma descending >= 0, V^T V = I, J^T J = V sigma^2 V^T)")
     n_data, n_clp, n_free = _dof(cfg)
     free_labels = optim.free_parameter_spec(cfg)
-    for ctx, src, stubs, kind, out in symbolic_optimize(cfg, rec, K=cfg.get("K", 2)):
+    # the returned point is a solver variable where it matters most (penalties, linked groups, several groups); elsewhere the
+    # last evaluated point is returned (keeps the quick tier short; the thorough tier makes it symbolic everywhere)
+    sym_pick = bool(cfg.get("penalties")) or len(cfg["datasets"]) > 1 or cfg.get("symbolic_pick")
+    for ctx, src, stubs, kind, out in symbolic_optimize(cfg, rec, K=cfg.get("K", 2), pick="symbolic" if sym_pick else None):
         rec.witness_path(ctx)
         wit = lambda mm: {"env": model_env(mm)}  # noqa: E731
         if kind == "exc":
             rec.unexpected(ctx, f"optimize/create_result raised {type(out).__name__}: {out}", "statistics:exception", wit)
             continue
         scheme, opt, ls, svd, res, _ = out
-        x, fun = ls.evals[-1]
+        x, fun = ls.evals[ls.returned]
         f = [zreal(v) for v in np.asarray(fun, dtype=object).flat]
         pens = [zreal(v) for g in (res.additional_penalty or []) for v in np.asarray(g, dtype=object).flat]
         chi = zreal(res.chi_square)
@@ -238,7 +242,7 @@ def run_config(cfg, rec):
 
 
 # ------------------------------------------------------------------------------------------------ float side
-def float_optimize(cfg, env, points=None, K=2):
+def float_optimize(cfg, env, points=None, K=2, pick=None):
     from harness import pipeline as pl
     from glotaran.optimization.optimizer import Optimizer
 
@@ -250,7 +254,7 @@ def float_optimize(cfg, env, points=None, K=2):
             scheme = pl.build_scheme(cfg, src)
             x0 = scheme.parameters.get_label_value_and_bounds_arrays(exclude_non_vary=True)[1]
             pts = points or [np.asarray(x0, dtype=float) * (1.0 + 0.05 * (k + 1)) for k in range(K - 1)]
-            ls = optim.AdversarialLeastSquares(None, K=K, symbolic=False, points=pts)
+            ls = optim.AdversarialLeastSquares(None, K=K, symbolic=False, points=pts, pick=pick)
             with Patcher() as p2:
                 optim.install_optimizer_stubs(p2, None, src, ls, None)
                 opt = Optimizer(scheme, verbose=False)
@@ -264,9 +268,9 @@ def concrete(cfg, env):
     return {"n_res": int(res.number_of_residuals), "n_clp": int(res.number_of_clps), "dof": int(res.degrees_of_freedom)}
 
 
-def _check_float(cfg, env):
+def _check_float(cfg, env, pick=None):
     try:
-        res, ls = float_optimize(cfg, env, K=cfg.get("K", 2))
+        res, ls = float_optimize(cfg, env, K=cfg.get("K", 2), pick=pick)
     except Exception as ex:  # noqa: BLE001
         return True, f"config {cfg['name']}: optimize/create_result raised {type(ex).__name__}: {ex}"
     n_data, n_clp, n_free = _dof(cfg)
@@ -303,7 +307,7 @@ def _check_float(cfg, env):
     free = optim.free_parameter_spec(cfg)
     if list(res.free_parameter_labels) != free:
         return True, f"{head}: free_parameter_labels {res.free_parameter_labels} != {free}"
-    x = np.asarray(ls.evals[-1][0], dtype=float)
+    x = np.asarray(ls.evals[ls.returned][0], dtype=float)
     for k, lab in enumerate(free):
         p = res.optimized_parameters.get(lab)
         err = res.root_mean_square_error * np.sqrt(cov[k, k])
@@ -322,8 +326,9 @@ def _check_float(cfg, env):
 def replay(data):
     last = (False, "")
     for env in (c02.salted("r1"), c02.salted("r2"), c02.DefaultEnv(dict(data["env"]))):
-        v, d = _check_float(data["cfg"], env)
-        if v:
-            return v, d
-        last = (v, d)
+        for pick in (None, 0):  # the optimiser returns its last point / an earlier (better) point
+            v, d = _check_float(data["cfg"], env, pick=pick)
+            if v:
+                return v, d
+            last = (v, d)
     return last
